@@ -43,7 +43,7 @@ META = {
                   'trusted. Function-level half only: removal from the pool '
                   'is checked by the E1 half.',
     'design_ref': 'DESIGN.md §5 C11, Appendix E.2',
-    'budget': {'quick': 90, 'thorough': 900},
+    'budget': {'quick': 120, 'thorough': 900},
 }
 RULE = ('case = one task definition (standard-output marks, custom outputs '
         'with marks and messages, optional user completion expression, '
@@ -67,7 +67,7 @@ ASSUMPTIONS = [
 ]
 MIN = {
     'quick': {
-        'is_complete_evals': 300000, 'defs_default_direct': 2000,
+        'is_complete_evals': 300000, 'defs_default_direct': 2340,
         'defs_user_expr': 300, 'defs_via_config': 120,
         'verdict_complete': 50000, 'verdict_incomplete': 50000,
         'defs_succ_opt': 300, 'defs_sub_opt': 300, 'defs_exp_opt': 300,
@@ -84,7 +84,7 @@ MIN = {
     },
 }
 NCASES = {'quick': 96, 'thorough': 768}
-QUICK_K3_FRACTION = 0.2
+QUICK_K3_FRACTION = 0.1
 USER_PER_CASE = {'quick': 6, 'thorough': 8}
 CONFIG_PER_CASE = {'quick': 3, 'thorough': 4}
 
